@@ -470,6 +470,30 @@ def run_check(prop, tier, seed):
             raise
         corr_error = str(e)
     except Exception as e:  # noqa
+        tb = traceback.extract_tb(e.__traceback__)
+        in_impl = [fr for fr in tb if os.path.abspath(fr.filename).startswith(os.path.join(os.path.abspath(REPO), 'static_frame'))]
+        if in_impl and not (getattr(e, '__module__', '') or '').startswith('sfv'):
+            # an exception raised INSIDE static_frame escaped an observation the generators make on every run: on the
+            # unchanged tree these observations succeed (the check is run there before it is registered), so the
+            # implementation now fails where it answered before: report it as a violation with the traceback as replay
+            impl_crash = {'exception': type(e).__name__, 'message': str(e)[:400],
+                          'raised_at': [f'{os.path.relpath(fr.filename, REPO)}:{fr.lineno} in {fr.name}' for fr in in_impl[-4:]],
+                          'observation_at': [f'{os.path.basename(fr.filename)}:{fr.lineno} in {fr.name}' for fr in tb if '/sfv/props/' in fr.filename][-3:]}
+            path = write_replay(pid, {'property': pid, 'seed': seed, 'tier': tier,
+                                       'verdict': 'the implementation raised inside an observation that succeeds on the unchanged tree',
+                                       'implementation_exception': impl_crash, 'traceback': ''.join(traceback.format_exception(type(e), e, e.__traceback__))[-3000:]})
+            print(f'VIOLATION property={pid} replay={path}')
+            print(f'[{pid}] tier={tier} seed={seed} implementation exception escaped an observation: {impl_crash["exception"]} at {impl_crash["raised_at"][-1]} exit=1')
+            evidence = {'property_id': pid, 'tier': tier, 'seed': seed, 'level': 'proof',
+                        'coverage': {'obligations': max(1, len(obligations)), 'discharged': len(discharged),
+                                     'checker_cmd': 'make -C /verif/coq <property files> && coqc (Print Assumptions parsed)',
+                                     'trusted_base': BASE_TRUSTED, 'evaluations': 1, 'distinct_nontrivial': 0,
+                                     'rule': getattr(prop, 'RULE', ''), 'samples': [impl_crash], 'broken': [{'kind': 'implementation-exception', **impl_crash}]},
+                        'assumptions': list(getattr(prop, 'ASSUMPTIONS', ())), 'wall_s': round(time.time() - t0, 2), 'violations': 1}
+            os.makedirs(EVIDENCE, exist_ok=True)
+            with open(os.path.join(EVIDENCE, f'{pid}.json'), 'w') as f:
+                json.dump(evidence, f, indent=1, sort_keys=True, default=str)
+            return 1
         # the generators of a property may lean on its own extractor: when the source no longer has the shape the
         # extractor expects (translation already recorded as broken) a crash here is a consequence, not a harness bug
         if model_ok and not my_broken:
